@@ -166,6 +166,251 @@ theorem field_rows_named (T : ScopeTable) (ctx : Ctx) (spec : ColSpec) (fn : Opt
       obtain ⟨e, he, cell, hc, hpos⟩ := (mem_cells_checkStep ctx fn vals k ck (hchecks ck hck) i).mpr hv
       exact ⟨e, ⟨_, ⟨(ck, k), hk, rfl⟩, he⟩, cell, hc, hpos⟩
 
+/-! ### the whole frame: which rows the collected errors name, and what `drop_invalid_rows` keeps -/
+
+/-- positions of the rows that repeat an earlier / later row over the jointly unique columns -/
+def jointCols (S : Schema) (P : Frame) : List Column := (S.unique.filter P.hasCol).filterMap P.col?
+
+def jointDupRows (S : Schema) (P : Frame) : List Nat :=
+  truePositions (dupRowMask S.reportDup (rowsOf P.nrows ((jointCols S P).map (·.vals))))
+
+/-- row `i` violates a row-level constraint of the schema: of a column, of the joint uniqueness
+declaration, or of the index -/
+def frameRowBad (S : Schema) (P : Frame) (i : Nat) : Prop :=
+  (∃ spec ∈ S.columns, ∃ n c, spec.name = some n ∧ P.col? n = some c ∧ fieldRowBad spec c.vals i)
+  ∨ (S.unique ≠ [] ∧ jointCols S P ≠ [] ∧ i ∈ jointDupRows S P)
+  ∨ (∃ ix l, S.index = some ix ∧ P.index = [l] ∧ fieldRowBad ix l.vals i)
+
+/-- the schema-level part conforms and every check evaluates: what is left can only be row-level -/
+structure RowLevelOnly (S : Schema) (P : Frame) : Prop where
+  noRegex : ∀ spec ∈ S.columns, spec.regex = none
+  colDtype : ∀ spec ∈ S.columns, ∀ n c, spec.name = some n → P.col? n = some c →
+    ∀ t, spec.dtype = some t → dtypeOkImpl t c.dtype c.vals = true
+  colChecks : ∀ spec ∈ S.columns, ∀ n c, spec.name = some n → P.col? n = some c →
+    ∀ ck ∈ spec.checks, runCheck ck c.vals ≠ .raised
+  oneLevel : ∀ ix, S.index = some ix → ∃ l, P.index = [l] ∧ (ix.name = none ∨ ix.name = l.name)
+  ixDtype : ∀ ix l, S.index = some ix → P.index = [l] → ∀ t, ix.dtype = some t → dtypeOkImpl t l.dtype l.vals = true
+  ixChecks : ∀ ix l, S.index = some ix → P.index = [l] → ∀ ck ∈ ix.checks, runCheck ck l.vals ≠ .raised
+
+theorem presence_no_cells (T : ScopeTable) (d : Depth) (S : Schema) (P : Frame) :
+    ∀ e ∈ presenceErrors T d S P, e.cells = [] := by
+  intro e he
+  unfold presenceErrors at he
+  split at he
+  · obtain ⟨n, _, rfl⟩ := List.mem_map.mp he; rfl
+  · cases he
+
+theorem jointUnique_rows_named (T : ScopeTable) (S : Schema) (P : Frame) (i : Nat) :
+    (∃ e ∈ jointUniqueErrors T .schemaAndData S P, ∃ cell ∈ e.cells, cell.pos = i)
+      ↔ (S.unique ≠ [] ∧ jointCols S P ≠ [] ∧ i ∈ jointDupRows S P) := by
+  unfold jointUniqueErrors
+  simp only [optRuns_sad, Bool.true_and]
+  by_cases hu : S.unique = []
+  · simp [hu]
+  · have hne : (!S.unique.isEmpty) = true := by
+      cases hl : S.unique with
+      | nil => exact absurd hl hu
+      | cons _ _ => rfl
+    simp only [hne, ↓reduceIte]
+    show (∃ e ∈ (if (jointDupRows S P).isEmpty then [] else
+        [({ reason := .duplicates, ctx := .frame, label := none,
+            cells := ((jointCols S P).map (fun c => cellsAt (some c.name) c.vals (jointDupRows S P))).flatten } : Err)]),
+        ∃ cell ∈ e.cells, cell.pos = i) ↔ _
+    constructor
+    · rintro ⟨e, he, cell, hc, rfl⟩
+      split at he
+      · cases he
+      · simp only [List.mem_singleton] at he
+        subst he
+        simp only [List.mem_flatten, List.mem_map] at hc
+        obtain ⟨l, ⟨c, hcm, rfl⟩, hcell⟩ := hc
+        refine ⟨hu, ?_, ((mem_cellsAt_iff _ _ _ _).mp hcell).2.1⟩
+        intro hnil; rw [hnil] at hcm; cases hcm
+    · rintro ⟨_, hcols, hi⟩
+      have hne2 : (jointDupRows S P).isEmpty = false := by
+        cases hl : jointDupRows S P with
+        | nil => rw [hl] at hi; cases hi
+        | cons _ _ => rfl
+      cases hcl : jointCols S P with
+      | nil => exact absurd hcl hcols
+      | cons c rest =>
+        refine ⟨_, by simp only [hne2, Bool.false_eq_true, ↓reduceIte, List.mem_singleton]; rfl,
+          ⟨some c.name, i, c.vals.getD i .null⟩, ?_, rfl⟩
+        simp only [hcl, List.map_cons, List.flatten_cons, List.mem_append]
+        exact Or.inl ((mem_cellsAt_iff _ _ _ _).mpr ⟨rfl, hi, rfl⟩)
+
+theorem relabel_rows (l : Option String) (es : List Err) (i : Nat) :
+    (∃ e ∈ relabel l es, ∃ cell ∈ e.cells, cell.pos = i) ↔ (∃ e ∈ es, ∃ cell ∈ e.cells, cell.pos = i) := by
+  unfold relabel
+  simp only [List.mem_map]
+  constructor
+  · rintro ⟨_, ⟨e, he, rfl⟩, cell, hc, hp⟩
+    simp only [List.mem_map] at hc
+    obtain ⟨c0, hc0, rfl⟩ := hc
+    exact ⟨e, he, c0, hc0, hp⟩
+  · rintro ⟨e, he, cell, hc, hp⟩
+    exact ⟨_, ⟨e, he, rfl⟩, { cell with col := l }, List.mem_map.mpr ⟨cell, hc, rfl⟩, hp⟩
+
+/-- **C11 (c), whole frame** the rows named by the errors of the core checks are exactly the rows
+violating a row-level constraint of a column, of the joint uniqueness declaration or of the index —
+for every schema whose schema-level part conforms and whose checks evaluate -/
+theorem frame_rows_named (T : ScopeTable) (S : Schema) (P : Frame) (h : RowLevelOnly S P) (i : Nat) :
+    (∃ e ∈ coreCheckErrors T .schemaAndData S P, ∃ cell ∈ e.cells, cell.pos = i) ↔ frameRowBad S P i := by
+  unfold coreCheckErrors frameRowBad
+  simp only [List.mem_append, or_and_right, exists_or, or_assoc]
+  have hpres : ¬ ∃ e, e ∈ presenceErrors T .schemaAndData S P ∧ ∃ cell ∈ e.cells, cell.pos = i := by
+    rintro ⟨e, he, cell, hc, _⟩
+    rw [presence_no_cells T _ S P e he] at hc; cases hc
+  simp only [hpres, false_or]
+  have hJ := jointUnique_rows_named T S P i
+  have hC : (∃ x, x ∈ (S.columns.map (fun c => columnErrors T .schemaAndData c P)).flatten ∧
+        ∃ cell, cell ∈ x.cells ∧ cell.pos = i)
+      ↔ ∃ spec, spec ∈ S.columns ∧ ∃ n c, spec.name = some n ∧ P.col? n = some c ∧ fieldRowBad spec c.vals i := by
+    simp only [List.mem_flatten, List.mem_map]
+    constructor
+    · rintro ⟨x, ⟨l, ⟨spec, hs, rfl⟩, hx⟩, hcell⟩
+      refine ⟨spec, hs, ?_⟩
+      unfold columnErrors at hx
+      rw [h.noRegex spec hs] at hx
+      simp only at hx
+      cases hn : spec.name with
+      | none => rw [hn] at hx; cases hx
+      | some n =>
+        rw [hn] at hx
+        simp only at hx
+        cases hc : P.col? n with
+        | none => rw [hc] at hx; cases hx
+        | some c =>
+          rw [hc] at hx
+          simp only at hx
+          exact ⟨n, c, rfl, hc, (field_rows_named T .column spec (some n) c.dtype c.vals (Or.inr hn)
+            (h.colDtype spec hs n c hn hc) (h.colChecks spec hs n c hn hc) i).mp ⟨x, hx, hcell⟩⟩
+    · rintro ⟨spec, hs, n, c, hn, hc, hbad⟩
+      obtain ⟨x, hx, hcell⟩ := (field_rows_named T .column spec (some n) c.dtype c.vals (Or.inr hn)
+        (h.colDtype spec hs n c hn hc) (h.colChecks spec hs n c hn hc) i).mpr hbad
+      refine ⟨x, ⟨_, ⟨spec, hs, rfl⟩, ?_⟩, hcell⟩
+      unfold columnErrors
+      rw [h.noRegex spec hs]
+      simp only [hn, hc]
+      exact hx
+  have hI : (∃ x, x ∈ indexPartErrors T .schemaAndData S P ∧ ∃ cell, cell ∈ x.cells ∧ cell.pos = i)
+      ↔ ∃ ix l, S.index = some ix ∧ P.index = [l] ∧ fieldRowBad ix l.vals i := by
+    unfold indexPartErrors
+    cases hix : S.index with
+    | none => simp
+    | some ix =>
+      obtain ⟨l, hl, hname⟩ := h.oneLevel ix hix
+      simp only
+      unfold indexErrors
+      rw [hl]
+      simp only
+      have := relabel_rows ix.name (fieldErrors T .schemaAndData .index ix l.name l.dtype l.vals) i
+      simp only [exists_and_left] at this ⊢
+      have hf := field_rows_named T .index ix l.name l.dtype l.vals hname
+        (h.ixDtype ix l hix hl) (h.ixChecks ix l hix hl) i
+      constructor
+      · intro hx
+        have h1 := (relabel_rows ix.name _ i).mp (by simpa using hx)
+        exact ⟨ix, rfl, l, rfl, hf.mp h1⟩
+      · rintro ⟨ix', hix', l', hl', hbad⟩
+        cases hix'; cases hl'
+        have h1 := (relabel_rows ix.name _ i).mpr (hf.mpr hbad)
+        simpa using h1
+  rw [hJ, hC, hI]
+  constructor
+  · rintro (h1 | h1 | h1)
+    · exact Or.inr (Or.inl h1)
+    · exact Or.inl h1
+    · exact Or.inr (Or.inr h1)
+  · rintro (h1 | h1 | h1)
+    · exact Or.inr (Or.inl h1)
+    · exact Or.inl h1
+    · exact Or.inr (Or.inr h1)
+
+/-- **C11 (result)** with `drop_invalid_rows`, when every collected error is attributable to rows the
+call returns the parsed frame without exactly the rows the errors name -/
+theorem drop_returns_unnamed_rows (T : ScopeTable) (d : Depth) (S : Schema) (D P : Frame) (pe : List Err)
+    (hparse : parseFrame S D = .ok P pe) (hdrop : S.dropInvalid = true)
+    (hes : (pe ++ strictOrderedErrors S D ++ coreCheckErrors T d S P) ≠ [])
+    (hrows : ∀ e ∈ pe ++ strictOrderedErrors S D ++ coreCheckErrors T d S P, e.cells ≠ []) :
+    validateLazy T d S D
+      = .ok (dropRows P (failingRows (pe ++ strictOrderedErrors S D ++ coreCheckErrors T d S P))) := by
+  unfold validateLazy
+  rw [hparse]
+  simp only
+  have h1 : (pe ++ strictOrderedErrors S D ++ coreCheckErrors T d S P).isEmpty = false := by
+    cases hl : pe ++ strictOrderedErrors S D ++ coreCheckErrors T d S P with
+    | nil => exact absurd hl hes
+    | cons _ _ => rfl
+  have h2 : (pe ++ strictOrderedErrors S D ++ coreCheckErrors T d S P).any (fun e => e.cells.isEmpty) = false := by
+    rw [List.any_eq_false]
+    intro e he
+    cases hc : e.cells with
+    | nil => exact absurd hc (hrows e he)
+    | cons _ _ => simp
+  simp only [h1, h2, hdrop, Bool.false_eq_true, ↓reduceIte]
+
+/-- **C11 (still raised)** a violation that is not attributable to rows (a missing column, a wrong
+dtype, a failing whole-column check …) is raised even with `drop_invalid_rows` -/
+theorem non_row_errors_still_raised (T : ScopeTable) (d : Depth) (S : Schema) (D P : Frame) (pe : List Err)
+    (hparse : parseFrame S D = .ok P pe) (hdrop : S.dropInvalid = true)
+    (e : Err) (he : e ∈ pe ++ strictOrderedErrors S D ++ coreCheckErrors T d S P) (hcells : e.cells = []) :
+    validateLazy T d S D = .errors (pe ++ strictOrderedErrors S D ++ coreCheckErrors T d S P) := by
+  unfold validateLazy
+  rw [hparse]
+  simp only
+  have h1 : (pe ++ strictOrderedErrors S D ++ coreCheckErrors T d S P).isEmpty = false := by
+    cases hl : pe ++ strictOrderedErrors S D ++ coreCheckErrors T d S P with
+    | nil => rw [hl] at he; cases he
+    | cons _ _ => rfl
+  have h2 : (pe ++ strictOrderedErrors S D ++ coreCheckErrors T d S P).any (fun e => e.cells.isEmpty) = true := by
+    rw [List.any_eq_true]
+    exact ⟨e, he, by simp [hcells]⟩
+  simp only [h1, h2, hdrop, Bool.false_eq_true, ↓reduceIte]
+
+/-- **C11 (exact rows)** a schema whose schema-level part conforms: the row at position `i` of the
+parsed frame survives the core checks' errors exactly when it violates no row-level constraint -/
+theorem survivors_are_the_valid_rows (T : ScopeTable) (S : Schema) (P : Frame)
+    (h : RowLevelOnly S P) (i : Nat) :
+    i ∈ keptPositions P.nrows (failingRows (coreCheckErrors T .schemaAndData S P))
+      ↔ i < P.nrows ∧ ¬ frameRowBad S P i := by
+  rw [kept_iff_not_named]
+  rw [← frame_rows_named T S P h i]
+  constructor
+  · rintro ⟨h1, h2⟩
+    refine ⟨h1, ?_⟩
+    rintro ⟨e, he, c, hc, hp⟩
+    exact h2 e he c hc hp
+  · rintro ⟨h1, h2⟩
+    exact ⟨h1, fun e he c hc hp => h2 ⟨e, he, c, hc, hp⟩⟩
+
+/-- the hypotheses of the frame theorems are satisfiable by a frame with violations of every kind -/
+example : RowLevelOnly
+    { columns := [{ name := some "a", dtype := some .float64, unique := true, checks := [{ b := .gt (.flt 0) }] }],
+      index := some { dtype := some .int64 }, unique := ["a"] }
+    { cols := [⟨"a", .float64, [.flt 4, .null, .flt 4, .flt (-4), .flt 8]⟩],
+      index := [⟨none, .int64, [.int 0, .int 1, .int 2, .int 3, .int 4]⟩], nrows := 5 } := by
+  refine ⟨?_, ?_, ?_, ?_, ?_, ?_⟩
+  · intro spec hs; simp at hs; subst hs; rfl
+  · intro spec hs n c hn hc t ht
+    simp at hs; subst hs
+    simp at hn; subst hn
+    simp [Frame.col?] at hc; subst hc
+    simp at ht; subst ht; decide
+  · intro spec hs n c hn hc ck hck
+    simp at hs; subst hs
+    simp at hn; subst hn
+    simp [Frame.col?] at hc; subst hc
+    simp at hck; subst hck; decide
+  · intro ix hix; simp at hix; subst hix; exact ⟨_, rfl, Or.inl rfl⟩
+  · intro ix l hix hl t ht
+    simp at hix; subst hix
+    simp at hl; subst hl
+    simp at ht; subst ht; decide
+  · intro ix l hix hl ck hck
+    simp at hix; subst hix
+    simp at hck
+
 /-- non-vacuity and an end-to-end instance: nulls, a duplicate and a failing check in one column -/
 example :
     validateLazy ⟨none, none, none, none, none, none, none, none, none, none⟩ .schemaAndData
